@@ -233,6 +233,16 @@ prop('C16', src='props/c16_wipe.cpp',
      technique='property-based testing (rapidcheck) with a dead-stack residue scan on a dedicated context stack and inspection of the freed block, across ten compiler/optimisation builds',
      level_text='For every generated case each API function and exit path is executed on a patterned stack which is then searched for secret-derived byte patterns; the freed block is inspected at release time with a marking wipe function. Exploration over inputs and ten compiler configurations.')
 
+prop('C19', src='props/c19_signedness.cpp',
+     plan={'quick': [{'variant': 'sc', 'workers': 16}], 'thorough': [{'variant': 'sc', 'workers': 16}]},
+     extra_libs={'sc': ['uc']},
+     rule='rapidcheck scripts executed in one process against the gcc -fsigned-char objects and the gcc -funsigned-char objects (every global symbol renamed u_* by objcopy), each with its own dependency kit: create; encode in a generated language (non-Latin and accented languages weighted); decode and decode_explicit (two languages, right and wrong coin) of 16 inputs derived from the phrase - as encoded, decomposed, composed with ASCII / ideographic spaces, accents dropped, abbreviated to 4 letters with and without accents, abbreviated and recomposed, an extra combining accent, a stray high byte, swapped words, a foreign accented word, 15 words with NBSP - and a raw byte string; crypt with non-ASCII passwords; keygen; getters; store/load. '
+          'Oracle (differential): the transcripts - statuses, phrases, store images, detected language names, full KDF argument logs, derived keys - are identical. Non-trivial = the script contains a non-ASCII byte in a phrase or password; distinct = case fingerprint.',
+     required_classes={'any': ['decode-status:OK', 'decode-status:LANG', 'decode-status:CHECKSUM', 'decode-status:NUM_WORDS', 'lang:Spanish', 'lang:French', 'lang:Japanese', 'lang:Korean', 'lang:Chinese (Simplified)']},
+     assumptions=['both signedness settings are produced with gcc on x86-64 (-fsigned-char / -funsigned-char); other ABIs where char is unsigned (ARM, PowerPC) are represented by the flag only'],
+     technique='property-based differential testing (rapidcheck): identical generated scripts run against -fsigned-char and -funsigned-char builds linked into one process (objcopy symbol renaming), transcripts compared',
+     level_text='Every generated script is executed against both builds and all observable results are compared; inputs concentrate on non-ASCII phrases and passwords in composed, decomposed, abbreviated and unaccented forms. Exploration.')
+
 NOT_APPLICABLE = {}
 MANIFEST_NOTES = 'All checks: ./check run <ID> --tier quick|thorough; VERIF_SEED selects the generator seed; evidence in /verif/evidence/<ID>.json; replay files under /verif/replays/<ID>/; committed regression cases under /verif/regress/<ID>/. See DESIGN.md.'
 for _p in ['C%02d' % i for i in range(1, 21)]:
